@@ -37,7 +37,7 @@ CLAIMED = {
         "DESIGN.md §4 C06",
     ),
     "C07": (
-        "Model-ledger stateful testing on a constant-product pair, a two-asset stableswap pair, a trio and a vault: histories of swaps / loans / collections (by anyone, repeated, with pending amounts zero, <= 1000 and above) / liquidity changes / fee changes; every swap's reported amounts are treated as claims and validated against independently observed balance, circulating-supply and ledger deltas; pending == charged - transferred after every step; a collection moves exactly the pending amounts to the configured collector and nobody else and leaves reserves unchanged; all-time counters equal the sums of charges.",
+        "Model-ledger stateful testing on a constant-product pair, a two-asset stableswap pair, a trio and a vault: histories of swaps / loans / collections (by anyone, repeated, with pending amounts zero, <= 1000 and above) / liquidity changes / fee changes; every swap's reported amounts are treated as claims and validated against independently observed balance, circulating-supply and ledger deltas; pending == charged - transferred after every step; a collection moves exactly the pending amounts to the configured collector and nobody else and leaves reserves unchanged; all-time counters equal the sums of charges. The 3-pool worlds use native denoms of which one is a proper prefix of another (uaaa / uaaab), so ledger look-ups by identifier are exercised on prefix-related assets.",
         "Closed-world supply for native denoms (sum over all accounts and contracts created by the harness). cw-multi-test as the chain.",
         "stateful property testing with an explicit reference ledger",
         "DESIGN.md §4 C07",
@@ -67,7 +67,7 @@ CLAIMED = {
         "DESIGN.md §4 C10",
     ),
     "C11": (
-        "Model-based stateful property testing of the real incentive contract over a cw20 LP, a native-denom LP and the cw20 LP of a real pair (with the real frontend helper): generated histories of opening / expanding positions (declared amount vs exact, smaller, larger or missing funds / allowance; allowed durations and one just outside each bound; optional receivers), closing, withdrawing, helper deposits (user -> helper -> pair -> incentive), flows funded in the LP asset itself, claims, snapshots and epoch advances by four users. Reference model open[user][duration] / closed[user] / LP-flow funds from observed transfers. After every step the contract's LP balance equals the model total exactly, the Positions query equals the model for every user, positions only change by what was actually received, withdrawals pay exactly the caller's closed positions to the caller only, and the helper's LP and asset balances are unchanged by a helper deposit. Helper deposits also attach funds beyond the stated amounts (one unit, double, an unrelated coin); the helper's holdings are compared over the LP, both pool assets and every bank denom.",
+        "Model-based stateful property testing of the real incentive contract over a cw20 LP, a native-denom LP and the cw20 LP of a real pair (with the real frontend helper): generated histories of opening / expanding positions (declared amount vs exact, smaller, larger or missing funds / allowance; allowed durations and one just outside each bound; optional receivers), closing, withdrawing, helper deposits (user -> helper -> pair -> incentive), flows funded in the LP asset itself, claims, snapshots and epoch advances by four users. Reference model open[user][duration] / closed[user] / LP-flow funds from observed transfers. After every step the contract's LP balance equals the model total exactly, the Positions query equals the model for every user, positions only change by what was actually received, withdrawals pay exactly the caller's closed positions to the caller only, and the helper's LP and asset balances are unchanged by a helper deposit. Helper deposits also attach funds beyond the stated amounts (one unit, double, an unrelated coin); the helper's holdings are compared over the LP, both pool assets and every bank denom. One history in fifteen is a directed shape: one address opens and closes the same duration 21-29 times without withdrawing, waits four epochs and withdraws twice.",
         "Native LP = plain bank denom (token-factory builds not exercised). Epoch clock = the repository's fee-distributor mock.",
         "stateful / model-based property testing",
         "DESIGN.md §4 C11",
